@@ -243,7 +243,7 @@ var nonCanonicalTexts = []string{
 	"hello", "héllo", "\x00", "\xff\xfe", "a\"b\\c", " ", "😀",
 	// exponent spellings of integers (exact, beyond 2^53, at the bounds of the integer types), fractions in disguise
 	"9007199254740993e0", "-9007199254740993e0", "9223372036854775807e0", "18446744073709551615e0", "1.8446744073709551615e19", "9.223372036854775807E+18",
-	"12e1", "1.27e2", "1.28e2", "2.55e2", "2.56e2", "6.5535e4", "4294967295e0", "1e0", "1E+0", "10e-1", "15e-1", "1e19", "1e20", "-1e0",
+	"27e18", "28e18", "36e18", "55e18", "92e18", "185e17", "1845e16", "19e18", "-27e18", "12e1", "1.27e2", "1.28e2", "2.55e2", "2.56e2", "6.5535e4", "4294967295e0", "1e0", "1E+0", "10e-1", "15e-1", "1e19", "1e20", "-1e0",
 	// wall-clock years 0000 / 9999 whose UTC year is another one, and the reverse
 	"9999-12-31T23:30:00-01:00", "9999-12-31T23:59:59-23:59", "9999-12-31T23:30:00+01:00", "0000-01-01T00:30:00+01:00", "0000-01-01T00:00:00+23:59", "0000-01-01T00:30:00-01:00",
 }
